@@ -979,7 +979,7 @@ fn parser_only_case(case: &mut Case) -> CaseResult {
             }
         }
         _ => {
-            let doc = g_ts_doc(&mut case.ch);
+            let doc = g_ts_doc_with(&mut case.ch, SynOpts { bare_object: true, bare_union: true });
             let r = render_ts_doc(&doc, RenderOpts::wild(), Some(&mut case.ch));
             if mch.chance(1, 2) {
                 let mut toks = token_texts(&r);
@@ -1552,6 +1552,23 @@ pub fn run(env: &Env) -> i32 {
             Ok(r) => r,
             Err(_) => Err(Failure::new("timeout", format!("parsing 40 import-like comment lines did not finish within {CASE_LIMIT_S}s"), json!({"text": text}))),
         }
+    });
+    rep.probe("C08-list-type-exponential", || {
+        // 40 levels of list types, valid and unclosed: 2^40 steps before the repair, microseconds after it
+        let valid = format!("type Query {{ a: {}Int{} }}\n", "[".repeat(40), "]".repeat(40));
+        let unclosed = format!("type Query {{ a: {} b: Int }}\n", "[".repeat(40));
+        for text in [valid, unclosed] {
+            let (tx, rx) = std::sync::mpsc::channel();
+            let t2 = text.clone();
+            std::thread::spawn(move || {
+                let _ = tx.send(parsers_only_text(&t2).map(|_| ()));
+            });
+            match rx.recv_timeout(Duration::from_secs(CASE_LIMIT_S)) {
+                Ok(r) => r?,
+                Err(_) => return Err(Failure::new("timeout", format!("parsing a list type of 40 levels did not finish within {CASE_LIMIT_S}s"), json!({"text": text}))),
+            }
+        }
+        Ok(())
     });
     rep.probe("C08-generate-exponential-nested-merge", || {
         // d = 9 levels: about 10 s while the finding is open, milliseconds once it is repaired; the probe
